@@ -26,14 +26,55 @@ func (o *c36) snapshot() (string, vAbs) {
 	return sb.String(), a
 }
 
+// known: the answer of VerifyRemoteChunk for every pending chunk (no state change for those):
+// "known" or "panic" (nil dereference of the missing certificate)
+func (o *c36) known() map[int]string {
+	s := o.v.sut
+	out := map[int]string{}
+	for _, c := range s.u.chunks {
+		if _, ok := s.node.storage.pendingChunkMap[c.chunk.id]; !ok {
+			continue
+		}
+		func() {
+			defer func() {
+				if recover() != nil {
+					out[c.idx] = "panic"
+				}
+			}()
+			if _, err := s.node.storage.VerifyRemoteChunk(c.chunk); err != nil {
+				out[c.idx] = "err"
+			} else {
+				out[c.idx] = "known"
+			}
+		}()
+	}
+	return out
+}
+
 func (o *c36) step(line string) string {
 	s := o.v.sut
 	if line != "reopen" || s.poisoned {
-		return o.v.do("%s", line)
+		out := o.v.do("%s", line)
+		if out == "panic" && (strings.HasPrefix(line, "vremote ") || strings.HasPrefix(line, "sigreq ")) {
+			o.v.r.Violation("verify-remote-chunk-panics-on-pending-chunk-without-cert",
+				"VerifyRemoteChunk dereferences the nil certificate of a pending chunk: %s", line)
+		}
+		return out
 	}
 	before, ab := o.snapshot()
+	kb := o.known()
 	out := o.v.do("%s", line)
 	after, aa := o.snapshot()
+	if out == "ok" {
+		ka := o.known()
+		for i, b := range kb {
+			if a, ok := ka[i]; ok && a != b && b == "known" && a == "panic" {
+				o.v.r.Violation("reopen-turns-known-into-panic",
+					"VerifyRemoteChunk(chunk %d) answered %q before the reopen and %q after it (certificates are not persisted and the nil certificate is dereferenced)", i, b, a)
+				break
+			}
+		}
+	}
 	if len(ab.pending)+len(ab.accepted) > 0 {
 		o.v.r.Distinct(before)
 	}
@@ -133,8 +174,10 @@ func TestVerifC36(t *testing.T) {
 					e++
 				}
 				o.step(fmt.Sprintf("getbytes %d %d", e, i))
-			default:
+			case x < 97:
 				o.step(fmt.Sprintf("rate %d", i))
+			default:
+				o.step(fmt.Sprintf("sigreq %d %d %d", i, v.sut.u.get(i).chunk.Expiry, i))
 			}
 			if rng.Chance(60) {
 				o.step("abs")
